@@ -20,6 +20,53 @@ def _alarm(signum, frame):
     raise CallTimeout()
 
 
+_WD = {"on": False, "beat": 0, "seen": -1, "period": 45}
+
+
+def heartbeat():
+    _WD["beat"] += 1
+
+
+def _in_implementation(frame):
+    while frame is not None:
+        fn = frame.f_code.co_filename.replace("\\", "/")
+        if "/fastavro/" in fn:
+            return True
+        frame = frame.f_back
+    return False
+
+
+def _wd_alarm(signum, frame):
+    """the check's watchdog: fires every `period` seconds; when the check made no progress (no case counted, no driver
+    batch) since the last tick AND the interrupted code is inside the implementation, the implementation call in
+    progress is aborted with CallTimeout — a call that does not return is a failure of that call, reported with its
+    input like any other, instead of a check that hangs"""
+    if _WD["beat"] == _WD["seen"] and _in_implementation(frame):
+        _WD["seen"] = -1
+        raise CallTimeout("the call made no progress for %d s" % _WD["period"])
+    _WD["seen"] = _WD["beat"]
+
+
+def watchdog_start(period=45, memory_gb=10):
+    import signal
+    import threading
+    if threading.current_thread() is not threading.main_thread():
+        return
+    _WD["on"], _WD["period"] = True, period
+    signal.signal(signal.SIGALRM, _wd_alarm)
+    signal.setitimer(signal.ITIMER_REAL, period, period)
+    try:
+        # an implementation call that allocates without bound ends in MemoryError (a failure of that call), not in the
+        # machine swapping
+        import resource
+        soft, hard = resource.getrlimit(resource.RLIMIT_AS)
+        lim = memory_gb * 1024 ** 3
+        if hard == resource.RLIM_INFINITY or lim < hard:
+            resource.setrlimit(resource.RLIMIT_AS, (lim, hard))
+    except Exception:  # noqa
+        pass
+
+
 def limited(fn, seconds=10):
     """runs one call of the implementation with a time limit (a changed decoder that loses alignment can loop
     over an astronomically large count); returns fn() or raises CallTimeout"""
@@ -34,6 +81,9 @@ def limited(fn, seconds=10):
     finally:
         signal.setitimer(signal.ITIMER_REAL, 0)
         signal.signal(signal.SIGALRM, old)
+        if _WD["on"]:
+            signal.signal(signal.SIGALRM, _wd_alarm)
+            signal.setitimer(signal.ITIMER_REAL, _WD["period"], _WD["period"])
 
 
 def backend():
